@@ -49,8 +49,10 @@ def run_shard(shard, ctx):
             continue
         R = 1 if conv == "R1" else N
         variants = [("Sigma", "fresh")]
+        if kind == "nncontrol":
+            variants += [("Sigma", "updated")]
         if kind != "nncontrol":
-            variants += [("Lambda", "fresh"), ("all", "fresh"), ("Sigma", "updated"), ("Sigma", "sliced")] + ([("b_none", "fresh")] if not kind.startswith("identity") else [])
+            variants += [("Lambda", "fresh"), ("all", "fresh"), ("Sigma", "updated"), ("Sigma", "sliced")] + ([("b_none", "fresh"), ("b_none", "sliced")] if not kind.startswith("identity") else [])
         for vi, (ctor, prep) in [(v, va) for v in vis for va in variants]:
             if (ctor, prep) != ("Sigma", "fresh") and vi not in (0, 100):
                 continue
@@ -62,7 +64,14 @@ def run_shard(shard, ctx):
             b = objs.vecn_batch(Dy, R, vi, seed, tag + ("b",))
             Sy = objs.spd_batch(Dy, R, vi, seed, tag + ("Sy",), diag=diag)
             with ctx.guard("prepare." + prep, dict(ctor=ctor, prep=prep)) as g:
-                if prep == "updated":
+                if prep == "updated" and kind == "nncontrol":
+                    # used with this batch of control variables, then update_Sigma, then used again with the same array
+                    cond, kw, (M, b, _) = objs.mk_cond(kind, M, b, Sy * 2.5, ctor=ctor)
+                    cond.set_y(J(al.points(N, Dy, salt=9)), **kw)
+                    cond.set_control_variable(kw["u"])
+                    cond.update_Sigma(J(Sy[:1]))
+                    Sy = np.tile(Sy[:1], (R, 1, 1))
+                elif prep == "updated":
                     # built with another noise covariance, then updated in place before set_y
                     cond, kw, (M, b, _) = objs.mk_cond(kind, M, b, Sy * 2.5, ctor=ctor)
                     cond.update_Sigma(J(Sy))
